@@ -333,12 +333,12 @@ func VerifC07Faulty() {
 
 // thorough: 1 row, 1 write, all filters, strings vary, both layouts, optional table-map events, faults
 func VerifC07OneWriteAll() {
-	c07Run(c07Cfg{rows: 1, writes: 1, faults: []int{0, 1, 2}, layouts: []int{0, 1}, filters: c07AllFilters, strings: true, tablemap: true})
+	c07Run(c07Cfg{rows: 1, writes: 1, faults: []int{0}, layouts: []int{0, 1, 2}, filters: c07AllFilters, tablemap: true})
 }
 
 // thorough: 2 rows, 2 writes
 func VerifC07TwoWrites() {
-	c07Run(c07Cfg{rows: 2, writes: 2, faults: []int{0, 1}, layouts: []int{1}, filters: []int{0, 1, 2, 3}})
+	c07Run(c07Cfg{rows: 1, writes: 2, kinds: []int{0, 1, 2}, faults: []int{0}, layouts: []int{0}, filters: []int{1, 3}})
 }
 
 func VerifC07Witness() {
